@@ -101,7 +101,13 @@ Section Generic.
     apply map_ext. intros i. cbn [c05_v0 c05_v1 fst snd]. apply H.
   Qed.
 
-  (* what the code does on the Cartesian path (dim = 2): the z coordinate is dropped *)
+  (* the current tree (dim flag generated from grid.py): the two coordinate inputs agree *)
+  Lemma c05_compute_cur_coords conv g rule order :
+    (forall i, c05_xyz g i = conv (c05_v0 (c05_lonlat g i)) (c05_v1 (c05_lonlat g i))) ->
+    c05_compute_cur O conv g rule order false = c05_compute_cur O conv g rule order true.
+  Proof. exact (c05_compute_coords conv g rule order). Qed.
+
+  (* what the code did on the Cartesian path before the fix (dim = 2): the z coordinate is dropped *)
   Lemma c05_compute_cart_drops_z conv g rule order :
     c05_compute O false conv g rule order false =
     c05_all_areas O (fun i => (c05_v0 (c05_xyz g i), c05_v1 (c05_xyz g i),
